@@ -74,26 +74,32 @@ func (r *RedisError) IsNil() bool {
 
 // IsMoved checks if it is a redis MOVED message and returns the moved address.
 func (r *RedisError) IsMoved() (addr string, ok bool) {
-	if ok = strings.HasPrefix(r.string(), "MOVED"); ok {
-		addr = fixIPv6HostPort(strings.Split(r.string(), " ")[2])
+	if strings.HasPrefix(r.string(), "MOVED") {
+		if parts := strings.Split(r.string(), " "); len(parts) > 2 {
+			return fixIPv6HostPort(parts[2]), true
+		}
 	}
-	return
+	return "", false
 }
 
 // IsAsk checks if it is a redis ASK message and returns ask address.
 func (r *RedisError) IsAsk() (addr string, ok bool) {
-	if ok = strings.HasPrefix(r.string(), "ASK"); ok {
-		addr = fixIPv6HostPort(strings.Split(r.string(), " ")[2])
+	if strings.HasPrefix(r.string(), "ASK") {
+		if parts := strings.Split(r.string(), " "); len(parts) > 2 {
+			return fixIPv6HostPort(parts[2]), true
+		}
 	}
-	return
+	return "", false
 }
 
 // IsRedirect checks if it is a redis REDIRECT message and returns redirect address.
 func (r *RedisError) IsRedirect() (addr string, ok bool) {
-	if ok = strings.HasPrefix(r.string(), "REDIRECT"); ok {
-		addr = fixIPv6HostPort(strings.Split(r.string(), " ")[1])
+	if strings.HasPrefix(r.string(), "REDIRECT") {
+		if parts := strings.Split(r.string(), " "); len(parts) > 1 {
+			return fixIPv6HostPort(parts[1]), true
+		}
 	}
-	return
+	return "", false
 }
 
 func fixIPv6HostPort(addr string) string {
